@@ -114,8 +114,21 @@ func opTxReloadRound(_ *HState, a Event) Event {
 	nbytes, nhash := gInt(a, "nbytes"), gInt(a, "nhash")
 	ta, tb := gW32(a, "ta"), gW32(a, "tb")
 	item := poolItem(0)
+	// mode "flags": both kinds of message contain the item (the transaction always matches); they differ in the UPDATE
+	// FLAG (all / none).  Whatever sequential order the calls have, a message that forbids updates never gains a bit.
+	// The matching output is the last of many, so that looking at the outputs takes a while.
+	flagsMode := gName(a, "mode") == "flags"
+	oidx := 0
+	outs := []interface{}{}
+	if flagsMode {
+		oidx = 1500
+		for k := 0; k < oidx; k++ {
+			outs = append(outs, map[string]interface{}{"kind": "push", "item": 2, "item2": 2})
+		}
+	}
+	outs = append(outs, map[string]interface{}{"kind": "pk", "item": 0, "item2": 0})
 	desc := []interface{}{map[string]interface{}{
-		"outs": []interface{}{map[string]interface{}{"kind": "pk", "item": 0, "item2": 0}},
+		"outs": outs,
 		"ins":  []interface{}{map[string]interface{}{"parent": -1, "out": 0, "sig": -1, "ext": 1}}}}
 	tx := buildTxs(desc, gInt(a, "salt"))[0]
 	txid := tx.TxHash()
@@ -130,6 +143,9 @@ func opTxReloadRound(_ *HState, a Event) Event {
 			if init == nil {
 				init = setBits(msgs[i].Filter)
 			}
+		} else if flagsMode {
+			msgs[i] = wire.NewMsgFilterLoad(make([]byte, nbytes), uint32(nhash), ta, wire.BloomUpdateNone)
+			bloom.LoadFilter(msgs[i]).Add(item)
 		} else {
 			msgs[i] = wire.NewMsgFilterLoad(make([]byte, nbytes), uint32(nhash), tb, wire.BloomUpdateAll)
 		}
@@ -175,7 +191,9 @@ func opTxReloadRound(_ *HState, a Event) Event {
 	for i, m := range msgs {
 		for _, b := range setBits(m.Filter) {
 			if i%2 == 1 {
-				dirty[b] = true
+				if !flagsMode || !isInit[b] {
+					dirty[b] = true
+				}
 			} else if !isInit[b] {
 				extra[b] = true
 			}
@@ -189,7 +207,7 @@ func opTxReloadRound(_ *HState, a Event) Event {
 		sort.Ints(out)
 		return out
 	}
-	e := with(a, "item", ints(item), "txid", ints(txid[:]), "init", init, "aextra", keys(extra), "bdirty", keys(dirty))
+	e := with(a, "item", ints(item), "txid", ints(txid[:]), "init", init, "aextra", keys(extra), "bdirty", keys(dirty), "oidx", oidx, "flagsmode", flagsMode)
 	if panics > 0 {
 		e["panic"] = "panic inside MatchTxAndUpdate"
 	}
@@ -514,8 +532,10 @@ func stress(c *Ctx, k, n int, flags int) int {
 					case 4:
 						f.Reload(wire.NewMsgFilterLoad(make([]byte, 1+rr.Intn(4)), 2, 1, wire.BloomUpdateType(flags)))
 					case 5:
-						if rr.Intn(8) == 0 {
+						if k := rr.Intn(8); k == 0 {
 							f.Unload()
+						} else if k == 1 {
+							f.Reload(nil)
 						}
 					case 6:
 						f.MatchTxAndUpdate(bchutil.NewTx(txs[rr.Intn(len(txs))]))
@@ -605,6 +625,8 @@ func runC20(c *Ctx) {
 			break
 		}
 		c.Call(Event{"op": "TxReloadRound", "k": []int{2, 4}[round%2], "n": 4000, "nbytes": 16, "nhash": 3, "ta": w32(r.Uint32()), "tb": w32(r.Uint32()),
+			"salt": int(r.Int31n(50000))})
+		c.Call(Event{"op": "TxReloadRound", "mode": "flags", "k": []int{2, 4}[round%2], "n": 600, "nbytes": 64, "nhash": 3, "ta": w32(r.Uint32()), "tb": w32(0),
 			"salt": int(r.Int31n(50000))})
 	}
 	c.Call(Event{"op": "LoadedRound", "rounds": c.Pick(60000, 600000)})
